@@ -8,6 +8,8 @@ package main
 // end to end over a fake conn / a temp-dir sandbox.
 
 import (
+	"crypto/md5"
+	"encoding/hex"
 	"encoding/json"
 	"fmt"
 	"io"
@@ -713,16 +715,18 @@ func c14SmCb(a []string) string {
 
 // ServerManager.serveHls behind an http.ServeMux, on the sandbox of c14.hlsserve: histories of
 // requests (from chosen remote addresses), add_ip_blacklist calls and clock advances
-func c14ServeHlsSm(flags int, key, ovr, root string, sub bool) *logic.ServerManager {
+const c14HlsHashKey = "q191201771"
+
+func c14ServeHlsSm(flags int, key, ovr, root string, sub bool, timeoutMs int) *logic.ServerManager {
 	hashKey := ""
 	if sub {
-		hashKey = "q191201771"
+		hashKey = c14HlsHashKey
 	}
 	conf := map[string]interface{}{
 		"conf_version": base.ConfVersion,
 		"log":          map[string]interface{}{"level": 5, "filename": "", "is_to_stdout": false, "is_rotate_daily": false, "short_file_flag": false, "timestamp_flag": false, "timestamp_with_ms_flag": false, "level_flag": false, "assert_behavior": 1},
 		"hls": map[string]interface{}{"enable": true, "url_pattern": "/hls/", "out_path": root, "fragment_duration_ms": 3000, "fragment_num": 6,
-			"delete_threshold": 6, "cleanup_mode": 0, "use_memory_as_disk_flag": false, "sub_session_timeout_ms": 600000, "sub_session_hash_key": hashKey},
+			"delete_threshold": 6, "cleanup_mode": 0, "use_memory_as_disk_flag": false, "sub_session_timeout_ms": timeoutMs, "sub_session_hash_key": hashKey},
 		"simple_auth": map[string]interface{}{"key": key, "dangerous_lal_secret": ovr, "hls_m3u8_enable": flags&64 != 0},
 	}
 	raw, err := json.Marshal(conf)
@@ -730,6 +734,21 @@ func c14ServeHlsSm(flags int, key, ovr, root string, sub bool) *logic.ServerMana
 		panic(err)
 	}
 	return logic.NewServerManager(func(o *logic.Option) { o.ConfRawContent = raw })
+}
+
+// the HLS sub session (stream name, unique key) whose session id hash is sid, from the stat API
+func c14FindHlsSub(sm *logic.ServerManager, sid string) (string, string, bool) {
+	for _, g := range sm.StatAllGroup() {
+		for _, sub := range g.StatSubs {
+			if sub.Protocol == base.SessionProtocolHlsStr {
+				h := md5.Sum([]byte(sub.SessionId + c14HlsHashKey))
+				if hex.EncodeToString(h[:]) == sid {
+					return g.StreamName, sub.SessionId, true
+				}
+			}
+		}
+	}
+	return "", "", false
 }
 
 func c14ServeHls(a []string) string {
@@ -740,38 +759,50 @@ func c14ServeHls(a []string) string {
 	defer os.RemoveAll(top)
 	flags, key, ovr := intTok(a[0]), c14Str(a[1]), c14Str(a[2])
 	sub := boolTok(a[3])
-	scen := strings.Split(a[4], "|")
-	muxes := make([]*http.ServeMux, len(scen))
-	sms := make([]*logic.ServerManager, len(scen))
-	for i := range scen {
-		sm := c14ServeHlsSm(flags, key, ovr, top+"/T1/T2/outer/root", sub)
-		mux := http.NewServeMux()
-		mux.HandleFunc("/hls/", sm.VerifServeHls)
-		sms[i], muxes[i] = sm, mux
-	}
+	timeoutMs := intTok(a[4])
+	scen := strings.Split(a[5], "|")
+	// a line without clock advances and without kicks does not depend on which second an operation runs
+	// in, nor on when the handler's once-a-second sweep runs
+	timed := strings.Contains(a[5], "S:") || strings.Contains(a[5], "K:")
 	for attempt := 0; attempt < 4; attempt++ {
-		if out, ok := c14ServeHlsOnce(scen, sms, muxes); ok {
+		// every attempt works on fresh ServerManagers.  hls.ServerHandler sweeps its sessions on a ticker with
+		// a fixed 1 s period that starts when the handler is created: create the handlers right after a second
+		// boundary and run the operations 500 ms into a second - no operation is ever closer than 350 ms to a sweep
+		if timed {
+			now := time.Now()
+			time.Sleep(now.Truncate(time.Second).Add(time.Second + 5*time.Millisecond).Sub(now))
+		}
+		t0 := time.Now()
+		muxes := make([]*http.ServeMux, len(scen))
+		sms := make([]*logic.ServerManager, len(scen))
+		for i := range scen {
+			// a scenario may start with its own configuration C:<flags>:<sub>:<timeout>
+			fl, sb, tm := flags, sub, timeoutMs
+			if strings.HasPrefix(scen[i], "C:") {
+				f := strings.Split(strings.SplitN(scen[i], ",", 2)[0], ":")
+				fl, sb, tm = intTok(f[1]), boolTok(f[2]), intTok(f[3])
+			}
+			sm := c14ServeHlsSm(fl, key, ovr, top+"/T1/T2/outer/root", sb, tm)
+			mux := http.NewServeMux()
+			mux.HandleFunc("/hls/", sm.VerifServeHls)
+			sms[i], muxes[i] = sm, mux
+		}
+		if timed && time.Since(t0) > 150*time.Millisecond {
+			continue
+		}
+		if out, ok := c14ServeHlsOnce(scen, sms, muxes, timed); ok {
 			return out
 		}
-		// let every entry of the failed attempt expire
-		time.Sleep(1200 * time.Millisecond)
 	}
 	return "clock-unstable"
 }
 
-func c14ServeHlsOnce(scen []string, sms []*logic.ServerManager, muxes []*http.ServeMux) (string, bool) {
+func c14ServeHlsOnce(scen []string, sms []*logic.ServerManager, muxes []*http.ServeMux, timed bool) (string, bool) {
 	out := make([]string, len(scen))
-	// a line without clock advances does not depend on which second an operation runs in
-	timed := false
-	for _, sc := range scen {
-		if strings.Contains(sc, "S:") {
-			timed = true
-		}
-	}
 	now := time.Now()
 	start := now
 	if timed {
-		start = now.Truncate(time.Second).Add(time.Second + 300*time.Millisecond)
+		start = now.Truncate(time.Second).Add(time.Second + 500*time.Millisecond)
 		time.Sleep(start.Sub(now))
 	}
 	startUnix := start.Unix()
@@ -784,8 +815,13 @@ func c14ServeHlsOnce(scen []string, sms []*logic.ServerManager, muxes []*http.Se
 			defer wg.Done()
 			virt := int64(0)
 			var res []string
+			// every operation has to run inside [x.350, x.850] of its second
 			onTime := func() {
-				if timed && time.Now().Unix() != startUnix+virt {
+				if !timed {
+					return
+				}
+				d := time.Since(start.Add(time.Duration(virt) * time.Second))
+				if time.Now().Unix() != startUnix+virt || d < -150*time.Millisecond || d > 350*time.Millisecond {
 					badMu.Lock()
 					bad = true
 					badMu.Unlock()
@@ -793,15 +829,17 @@ func c14ServeHlsOnce(scen []string, sms []*logic.ServerManager, muxes []*http.Se
 			}
 			// session ids handed out by redirects; the case refers to the n-th one as @n
 			var sids []string
+			real := func(s string) string {
+				for n := len(sids) - 1; n >= 0; n-- {
+					s = strings.ReplaceAll(s, "@"+strconv.Itoa(n), sids[n])
+				}
+				return s
+			}
 			for _, o := range strings.Split(sc, ",") {
 				f := strings.Split(o, ":")
 				switch f[0] {
 				case "G":
-					uri := c14Str(f[4])
-					for n := len(sids) - 1; n >= 0; n-- {
-						uri = strings.ReplaceAll(uri, "@"+strconv.Itoa(n), sids[n])
-					}
-					req := httptest.NewRequest("GET", "http://127.0.0.1:8080"+uri, nil)
+					req := httptest.NewRequest("GET", "http://127.0.0.1:8080"+real(c14Str(f[4])), nil)
 					req.RemoteAddr = c14Str(f[1]) + ":4567"
 					rec := httptest.NewRecorder()
 					onTime()
@@ -840,6 +878,30 @@ func c14ServeHlsOnce(scen []string, sms []*logic.ServerManager, muxes []*http.Se
 					onTime()
 					sms[i].CtrlAddIpBlacklist(base.ApiCtrlAddIpBlacklistReq{Ip: c14Str(f[1]), DurationSec: d})
 					onTime()
+				case "K":
+					// /api/ctrl/kick_session takes the stream name and the session's unique key, which the stat api lists
+					onTime()
+					ok := false
+					if stream, uk, found := c14FindHlsSub(sms[i], real(c14Str(f[1]))); found {
+						ret := sms[i].CtrlKickSession(base.ApiCtrlKickSessionReq{StreamName: stream, SessionId: uk})
+						ok = ret.ErrorCode == base.ErrorCodeSucc
+					}
+					onTime()
+					res = append(res, "K"+tokBool(ok))
+				case "L":
+					onTime()
+					n := 0
+					for _, g := range sms[i].StatAllGroup() {
+						for _, sub := range g.StatSubs {
+							if sub.Protocol == base.SessionProtocolHlsStr {
+								n++
+							}
+						}
+					}
+					onTime()
+					res = append(res, "L"+strconv.Itoa(n))
+				case "C":
+					// configuration prefix, handled when the ServerManager was built
 				case "S":
 					n, err := strconv.Atoi(f[1])
 					if err != nil {
